@@ -75,7 +75,14 @@ def replay_hist(tag, rec):
                 with observe.observing(r, S):
                     try:
                         with impl.quiet():
-                            S.solve()
+                            # the documented keyword arguments in different presentations from solve to solve (none / the README's
+                            # explicit defaults / a thread count): status, values and texts must not depend on them
+                            if nsolve % 3 == 1:
+                                S.solve()
+                            elif nsolve % 3 == 2:
+                                S.solve(msg=False, timeLimit=None, threads=None, write=False)
+                            else:
+                                S.solve(threads=2)
                     except BaseException as e:  # noqa
                         cl.add('C18', 'solve_no_exception', False, 'solve #%d raised %s: %s' % (nsolve, type(e).__name__, e))
                         return cl.out, info
